@@ -139,9 +139,7 @@ theorem core_nt_step (fuel : Nat) (hR : RuleNT ctx fuel) : CoreNT ctx (fuel + 1)
   · simp only [Except.ok.injEq, Prod.mk.injEq, true_and] at h; exact h.symm
   · split at h
     · cases h
-    · next e hm =>
-      simp only [Except.ok.injEq, Prod.mk.injEq, true_and] at h; subst h
-      exact hR pf _ _ _ _ _ hm hk hn
+    · simp only [Except.ok.injEq, Prod.mk.injEq, true_and] at h; exact h.symm
     · next ret e hm =>
       exact absurd (kinds_sound_any_fuel ctx pf _ fuel n env ret e ks hm hk) hn
 
